@@ -21,7 +21,7 @@ Ltac simp :=
        mk wnow wP wpend wflag wco wtmr wbusy wclosed wA wS wnexts wT wnextt wSel wCn
        apc afd akind acn ato adat an apara acanc acio aawake atcall ahome alast
        mkA a_pc a_ret a_dead a_susp a_home a_wake a_wake_to a_resume a_canc a_cio a_cio_pc
-       spc_ sa sfd sto scn sdl s_pc s_arm tstate tdl tev tmin t_null t_pop
+       spc_ sa sfd sto scn s_pc tstate tdl tev tmin t_null t_pop
        buf wshut sent rcvd eof] in *.
 
 (* one leaf per way a step can be taken.  `syscall` stays folded: its three outcomes are handled by lemmas *)
